@@ -1112,6 +1112,14 @@ def await_shapes():
     A(P("await-two-atomics", SJ(2) + JJ(2), [st("x", 1, "rel"), st("y", 1, "rel")], [await_("x", "acq"), await_("y", "acq"), ld("x")]))
     A(P("await-two-atomics-rlx", SJ(2) + JJ(2), [st("x", 1), st("y", 1)], [await_("y", "rlx"), await_("x", "rlx")]))
     A(P("await-under-lock", SJ(2) + JJ(2), [st("x", 1, "rel")] + CS("m", ld("y")), CS("m", await_("x", "acq"), st("y", 1))))
+    # at the spinner's yield point another thread is blocked (main, in a join) and exactly one thread can run; the
+    # blocked thread establishes the condition only after it was unblocked
+    A(P("await-main-sets-after-join", [spawn(2), spawn(3), join(3), st("x", 1, "rel"), join(2)], [await_("x", "acq"), ld("y")], [st("y", 1)]))
+    A(P("await-main-sets-after-join-spin", [spawn(2), spawn(3), join(3), st("x", 1), join(2)], [I("await", "x", ord="rlx", k="spin")], [I("nop")]))
+    A(P("await-main-sets-after-recv", [spawn(2), spawn(3), L("recv", "ch"), st("x", 1, "rel"), join(2), join(3), L("droprx", "ch")],
+        [await_("x", "acq"), ld("y")], [st("y", 1), L("send", "ch", v=1)]))
+    A(P("await-main-sets-after-lock", [spawn(2), spawn(3), ld("z", "acq")] + CS("m", st("x", 1, "rel")) + [join(2), join(3)],
+        [await_("x", "acq")], CS("m", st("z", 1, "rel"), ld("y"))))
     # two concurrent stores (two writers, one store each); the waiter has seen one of them, spins on another flag and re-reads
     A(P("await-two-writers-reread", [spawn(2), spawn(3), await_("x", "rlx"), await_("d", "acq"), ld("x"), join(2), join(3)],
         [st("x", 1)], [st("x", 2), st("d", 1, "rel")]))
